@@ -292,10 +292,14 @@ func cmdCheck(args []string) int {
 		vc := generate(prog, specs, fn, fc)
 		vcs = append(vcs, vc)
 		if len(vc.errs) > 0 {
+			// A contract clause that cannot be evaluated against the code (a
+			// field it names changed its type, a local disappeared) means the
+			// proof no longer covers the tree: reported like a failed
+			// binding, not as a silent infrastructure exit.
 			for _, e := range vc.errs {
 				fmt.Fprintf(os.Stderr, "govc: %s: %s\n", pf.Name, e)
 			}
-			infra = true
+			bindingFailures = append(bindingFailures, pf.Name+":contract-does-not-fit-the-code")
 		}
 		for _, o := range vc.obls {
 			if labelMatch(pf.Labels, o) {
